@@ -26,7 +26,7 @@ open FeatModel.Poly
 inductive Kind | S | H
   deriving DecidableEq, Repr
 
-inductive Fam | L1 | L2 | L3 | D0 | D1 | CR | B2 | PB
+inductive Fam | L1 | L2 | L3 | D0 | D1 | CR | B2 | PB | HE | BF
   deriving DecidableEq, Repr
 
 structure Mesh where
@@ -178,6 +178,8 @@ def dofsPerDim (f : Fam) (k : Kind) (dim : Nat) : List Nat :=
     | .L3, .H => [1, 2, 4, 8]
     | .B2, _ => [1, 1, 1, 1]
     | .PB, _ => [1, 1, 1, 0]
+    | .HE, _ => [2, 0, 0, 0]   -- Hermite-3 / Bogner-Fox-Schmit in 1-D: value and derivative at every vertex
+    | .BF, _ => [2, 0, 0, 0]
     | .D0, _ => (List.range 4).map fun d => if d = dim then 1 else 0
     | .D1, _ => (List.range 4).map fun d => if d = dim then dim + 1 else 0
     | .CR, _ => (List.range 4).map fun d => if d + 1 = dim then 1 else 0
@@ -216,6 +218,7 @@ def tabOf : Fam → Kind → Nat → Option BasisTab
   | .D1, .S, 2 => some BasisS2.d1 | .CR, .S, 2 => some BasisS2.cr | .PB, .S, 2 => some BasisS2.pb
   | .L1, .S, 3 => some BasisS3.l1 | .L2, .S, 3 => some BasisS3.l2
   | .D1, .S, 3 => some BasisS3.d1 | .CR, .S, 3 => some BasisS3.cr
+  | .HE, .H, 1 => some BasisH1.he | .BF, .H, 1 => some BasisH1.bf
   | .L1, .H, 1 => some BasisH1.l1 | .L2, .H, 1 => some BasisH1.l2 | .L3, .H, 1 => some BasisH1.l3 | .B2, .H, 1 => some BasisH1.b2
   | .L1, .H, 2 => some BasisH2.l1 | .L2, .H, 2 => some BasisH2.l2 | .L3, .H, 2 => some BasisH2.l3 | .B2, .H, 2 => some BasisH2.b2
   | .L1, .H, 3 => some BasisH3.l1 | .L2, .H, 3 => some BasisH3.l2 | .L3, .H, 3 => some BasisH3.l3 | .B2, .H, 3 => some BasisH3.b2
@@ -309,6 +312,8 @@ def nodePts (f : Fam) (k : Kind) (cellDim d : Nat) : List (List Rat) :=
   | .L1, _ => if d = 0 then [[]] else []
   | .L2, .S => if d = 0 then [[]] else if d = 1 then [[1 / 2]] else []
   | .L2, .H => [List.replicate d 0]
+  | .HE, _ => []   -- derivative node functionals: `Model/FEHermite.lean`
+  | .BF, _ => []   -- Bogner-Fox-Schmit has no node functionals in FEAT
   | .B2, _ => []   -- Bernstein-2 node functionals are L2-projections with an irrational Gauss rule: not modelled
   | .L3, .S => if d = 0 then [[]] else if d = 1 then [[third], [2 * third]] else if d = 2 then [[third, third]] else []
   | .L3, .H => (List.range (2 ^ d)).map fun i => (List.range d).map fun j => if (i / 2 ^ j) % 2 = 1 then third else -third
